@@ -235,10 +235,8 @@ impl<F: Field> SparsePolynomial<F> {
     /// The function does not combine like terms and so multiple monomials
     /// of the same degree are ignored.
     pub fn from_coefficients_vec(mut coeffs: Vec<(usize, F)>) -> Self {
-        // While there are zeros at the end of the coefficient vector, pop them off.
-        while coeffs.last().is_some_and(|(_, c)| c.is_zero()) {
-            coeffs.pop();
-        }
+        // Terms with a zero coefficient are not stored.
+        coeffs.retain(|(_, c)| !c.is_zero());
         // Ensure that coeffs are in ascending order.
         coeffs.sort_by(|(c1, _), (c2, _)| c1.cmp(c2));
         // Check that either the coefficients vec is empty or that the last coeff is
